@@ -266,7 +266,7 @@ impl Report {
                 J::obj().set(
                     "explanation",
                     J::s(format!(
-                        "run aborted by the watchdog: no progress for {} s in work item {} ({}); the code under test does not terminate on a case of this item",
+                        "run aborted by the watchdog: no progress for {} CPU-seconds in work item {} ({}); the code under test does not terminate on a case of this item",
                         secs, item, what_item
                     )),
                 ),
@@ -282,7 +282,7 @@ impl Report {
         let rp = format!("{}/replays/{}-hang-{}.json", dir, self.property, item);
         let _ = std::fs::write(&rp, j.to_pretty());
         println!("VIOLATION property={} replay={}", self.property, rp);
-        println!("  what=no-progress the code under test made no progress for {} s in work item {} ({})", secs, item, what_item);
+        println!("  what=no-progress the code under test made no progress for {} CPU-seconds in work item {} ({})", secs, item, what_item);
         std::process::exit(1);
     }
 }
@@ -376,6 +376,44 @@ impl Report {
 // and C17) are watched by this second watchdog: they call `beat()` once per
 // case while `armed`.
 
+/// CPU clocks. The watchdogs measure a stall in CPU seconds consumed WITHOUT a
+/// heartbeat (a non-terminating loop in the code under test burns CPU), not
+/// in wall-clock seconds: on an oversubscribed machine a slow but progressing
+/// work item must never be mistaken for a hang. A wall-clock backstop 20 times
+/// larger catches a thread that is blocked instead of spinning.
+pub mod cpuclock {
+    #[repr(C)]
+    struct Timespec {
+        tv_sec: i64,
+        tv_nsec: i64,
+    }
+    extern "C" {
+        fn pthread_self() -> usize;
+        fn pthread_getcpuclockid(thread: usize, clockid: *mut i32) -> i32;
+        fn clock_gettime(clockid: i32, tp: *mut Timespec) -> i32;
+    }
+    pub const PROCESS: i32 = 2; // CLOCK_PROCESS_CPUTIME_ID
+    /// The CPU-time clock of the calling thread (None if unavailable).
+    pub fn of_current_thread() -> Option<i32> {
+        let mut id: i32 = 0;
+        let rc = unsafe { pthread_getcpuclockid(pthread_self(), &mut id) };
+        if rc == 0 {
+            Some(id)
+        } else {
+            None
+        }
+    }
+    pub fn secs(clock: i32) -> Option<f64> {
+        let mut ts = Timespec { tv_sec: 0, tv_nsec: 0 };
+        let rc = unsafe { clock_gettime(clock, &mut ts) };
+        if rc == 0 {
+            Some(ts.tv_sec as f64 + ts.tv_nsec as f64 * 1e-9)
+        } else {
+            None
+        }
+    }
+}
+
 pub static MAIN_HB: std::sync::atomic::AtomicU64 = std::sync::atomic::AtomicU64::new(0);
 pub static MAIN_ARMED: std::sync::atomic::AtomicBool = std::sync::atomic::AtomicBool::new(false);
 static MAIN_DESC: Mutex<String> = Mutex::new(String::new());
@@ -401,21 +439,30 @@ pub fn start_main_watchdog(property: String, tier: String) {
     let hang_secs: u64 = std::env::var("VERIF_HANG_SECS").ok().and_then(|s| s.parse().ok()).unwrap_or(90);
     std::thread::spawn(move || {
         let mut last = 0u64;
-        let mut stalled = 0u64;
+        let mut stalled_wall = 0u64;
+        let mut stalled_cpu = 0f64;
+        let mut last_cpu = cpuclock::secs(cpuclock::PROCESS);
         loop {
             std::thread::sleep(std::time::Duration::from_secs(1));
             let h = MAIN_HB.load(Ordering::Relaxed);
+            let now_cpu = cpuclock::secs(cpuclock::PROCESS);
             if MAIN_ARMED.load(Ordering::SeqCst) && h == last {
-                stalled += 1;
-                if stalled >= hang_secs {
+                stalled_wall += 1;
+                match (last_cpu, now_cpu) {
+                    (Some(a), Some(b)) => stalled_cpu += (b - a).max(0.0),
+                    _ => stalled_cpu += 1.0,
+                }
+                if stalled_cpu >= hang_secs as f64 || stalled_wall >= hang_secs * 20 {
                     let desc = MAIN_DESC.lock().map(|d| d.clone()).unwrap_or_default();
                     let rep = Report::new(&property, &tier);
-                    rep.abort_no_progress(usize::MAX >> 1, stalled, desc);
+                    rep.abort_no_progress(usize::MAX >> 1, stalled_cpu.max(1.0) as u64, desc);
                 }
             } else {
-                stalled = 0;
+                stalled_wall = 0;
+                stalled_cpu = 0.0;
             }
             last = h;
+            last_cpu = now_cpu;
         }
     });
 }
@@ -504,12 +551,16 @@ where
     let hang_secs: u64 = std::env::var("VERIF_HANG_SECS").ok().and_then(|s| s.parse().ok()).unwrap_or(90);
     let hbs: Vec<Arc<AtomicU64>> = (0..threads).map(|_| Arc::new(AtomicU64::new(0))).collect();
     let cur: Vec<AtomicUsize> = (0..threads).map(|_| AtomicUsize::new(usize::MAX)).collect();
+    // CPU clock id of each worker (i64::MIN: not registered / unavailable)
+    let clocks: Vec<std::sync::atomic::AtomicI64> = (0..threads).map(|_| std::sync::atomic::AtomicI64::new(i64::MIN)).collect();
     let done = AtomicBool::new(false);
     std::thread::scope(|s| {
         // watchdog
         s.spawn(|| {
             let mut last: Vec<u64> = vec![0; threads];
             let mut stalled: Vec<u64> = vec![0; threads];
+            let mut stalled_cpu: Vec<f64> = vec![0.0; threads];
+            let mut last_cpu: Vec<Option<f64>> = vec![None; threads];
             while !done.load(Ordering::Relaxed) {
                 for _ in 0..10 {
                     std::thread::sleep(std::time::Duration::from_millis(100));
@@ -520,15 +571,23 @@ where
                 for t in 0..threads {
                     let item = cur[t].load(Ordering::Relaxed);
                     let h = hbs[t].load(Ordering::Relaxed);
+                    let ck = clocks[t].load(Ordering::Relaxed);
+                    let now_cpu = if ck == i64::MIN { None } else { cpuclock::secs(ck as i32) };
                     if item != usize::MAX && h == last[t] {
                         stalled[t] += 1;
-                        if stalled[t] >= hang_secs {
-                            rep.abort_no_progress(item, stalled[t], desc(item));
+                        match (last_cpu[t], now_cpu) {
+                            (Some(a), Some(b2)) => stalled_cpu[t] += (b2 - a).max(0.0),
+                            _ => stalled_cpu[t] += 1.0,
+                        }
+                        if stalled_cpu[t] >= hang_secs as f64 || stalled[t] >= hang_secs * 20 {
+                            rep.abort_no_progress(item, stalled_cpu[t].max(1.0) as u64, desc(item));
                         }
                     } else {
                         stalled[t] = 0;
+                        stalled_cpu[t] = 0.0;
                     }
                     last[t] = h;
+                    last_cpu[t] = now_cpu;
                 }
             }
         });
@@ -538,7 +597,11 @@ where
             let cur = &cur;
             let next = &next;
             let f = &f;
+            let clocks = &clocks;
             handles.push(s.spawn(move || {
+                if let Some(id) = cpuclock::of_current_thread() {
+                    clocks[t].store(id as i64, Ordering::Relaxed);
+                }
                 let mut st = Stats::default();
                 st.hb = Some(hb);
                 loop {
